@@ -1346,7 +1346,8 @@ func (f *fragment) rangeLT(bitDepth uint, predicate int64, allowEquality bool) (
 	}
 
 	// If predicate is positive, return all positives less than predicate and all negatives.
-	if (predicate >= 0 && allowEquality) || (predicate >= -1 && !allowEquality) {
+	// ("< 0" is handled below: it is exactly the negative values.)
+	if (predicate >= 0 && allowEquality) || (predicate > 0 && !allowEquality) {
 		pos, err := f.rangeLTUnsigned(b.Difference(f.row(bsiSignBit)), bitDepth, upredicate, allowEquality)
 		if err != nil {
 			return nil, err
@@ -1415,7 +1416,7 @@ func (f *fragment) rangeGT(bitDepth uint, predicate int64, allowEquality bool) (
 	}
 
 	// If predicate is positive, return all positives greater than predicate.
-	if (predicate >= 0 && allowEquality) || (predicate >= -1 && !allowEquality) {
+	if predicate >= 0 {
 		return f.rangeGTUnsigned(b.Difference(f.row(bsiSignBit)), bitDepth, upredicate, allowEquality)
 	}
 
